@@ -32,7 +32,7 @@ import (
 
 func init() {
 	register(&Prop{ID: "C09", Run: runC09, MinNontrivial: 200, RaceSecondPass: true,
-		Rule:        "each case = one input string presented to all six inbound entry points (plus direct DecryptBytes/Decrypt/DecryptSymmetricKey calls in the cipher classes) under one of 16 SP configurations (incl. certificate/key stores that return errors or nil entries, an ECDSA key given as encryption key) (empty store, no keys, nil clock, skip on/off, encryption-cert validation with empty/junk cert, decompression limits MaxInt64 / negative / MinInt64 / 1); classes: end-to-end ciphertext matrix (valid wrapped key, data ciphertext of every length 0-80, every final padding byte, all-zero plaintext, wrong key sizes, unknown algorithms, EncryptedKey ciphertext lengths 0-300), truncations/bit-flips/splices/base64+DEFLATE damage of generated and captured messages, hostile shapes (deep/wide trees, many Signatures, malformed Signature parts, DOCTYPE); oracle: no panic, process survives, exactly one of result/error; non-trivial = input that base64-decodes (reaches inflate/XML/crypto logic); a second pass repeats a subset under the race detector (checkptr); SP certificate bytes in non-DER forms (PEM, PEM without CERTIFICATE block, key file, cut-off file, BOM) through both key APIs; thirteen forms of advertised EncryptedKey certificate (EC, Ed25519, same key, cut, folded, PEM text, DER garbage); RetrievalMethod URI variants; class repeated-rejection (80 calls of the same rejected encrypted message, parked-goroutine detection); encoding-mark shapes (UTF-16/32/7/1 marks with odd and empty tails)",
+		Rule:        "each case = one input string presented to all six inbound entry points (plus direct DecryptBytes/Decrypt/DecryptSymmetricKey calls in the cipher classes) under one of 16 SP configurations (incl. certificate/key stores that return errors or nil entries, an ECDSA key given as encryption key) (empty store, no keys, nil clock, skip on/off, encryption-cert validation with empty/junk cert, decompression limits MaxInt64 / negative / MinInt64 / 1); classes: end-to-end ciphertext matrix (valid wrapped key, data ciphertext of every length 0-80, every final padding byte, all-zero plaintext, wrong key sizes, unknown algorithms, EncryptedKey ciphertext lengths 0-300), truncations/bit-flips/splices/base64+DEFLATE damage of generated and captured messages, hostile shapes (deep/wide trees, many Signatures, malformed Signature parts, DOCTYPE); oracle: no panic, process survives, exactly one of result/error; non-trivial = input that base64-decodes (reaches inflate/XML/crypto logic); a second pass repeats a subset under the race detector (checkptr); SP certificate bytes in non-DER forms (PEM, PEM without CERTIFICATE block, key file, cut-off file, BOM) through both key APIs; thirteen forms of advertised EncryptedKey certificate (EC, Ed25519, same key, cut, folded, PEM text, DER garbage); RetrievalMethod URI variants; class repeated-rejection (80 calls of the same rejected encrypted message, parked-goroutine detection); encoding-mark shapes (UTF-16/32/7/1 marks with odd and empty tails); class corpus-as-is (every corpus document unmodified against every configuration; the corpus includes logout requests with the schema's optional NotOnOrAfter / Reason / Consent attributes); class sparse-valid; key stores that hand out a certificate without a key",
 		Assumptions: []string{"a watchdog firing is inconclusive, not a violation (the round-trip screen is super-linear on deep trees)", "DecryptBytes may return (nil, nil) for an empty plaintext; slice nil-ness is not tested"}})
 }
 
@@ -271,6 +271,18 @@ func c09Corpus(w *World) [][]byte {
 	for _, isResp := range []bool{false, true} {
 		l := sim.GenuineLogout(w.Env, isResp)
 		l.Sig = sim.DefaultSig(w.IdP[0].Key, w.IdP[0])
+		if x, err := sim.BuildLogout(l, sim.PlainStyle()); err == nil {
+			out = append(out, []byte(x))
+		}
+	}
+	// logout messages carrying the schema's optional attributes (an expiry in the past, in the future, unreadable; a
+	// reason; consent), unsigned and signed
+	for i, nooa := range []string{sim.TS(w.Now.Add(-time.Hour)), sim.TS(w.Now.Add(time.Hour)), sim.TS(w.Now), "never", ""} {
+		l := sim.GenuineLogout(w.Env, false)
+		l.NotOnOrAfter, l.Reason, l.Consent = sim.S(nooa), sim.S("urn:oasis:names:tc:SAML:2.0:logout:user"), sim.S("urn:oasis:names:tc:SAML:2.0:consent:unspecified")
+		if i%2 == 1 {
+			l.Sig = sim.DefaultSig(w.IdP[0].Key, w.IdP[0])
+		}
 		if x, err := sim.BuildLogout(l, sim.PlainStyle()); err == nil {
 			out = append(out, []byte(x))
 		}
@@ -531,6 +543,19 @@ func runC09(c *mon.Ctx) {
 	corpus := c09Corpus(w)
 	if c.Shard == 0 && !c.Race {
 		c.Count("corpus_documents", int64(len(corpus)))
+	}
+	// every corpus document as it is, against every configuration
+	for k, doc := range corpus {
+		cs := c.Begin("corpus-as-is", k)
+		if cs == nil {
+			continue
+		}
+		cs.Desc("corpus document %d (len %d)", k, len(doc))
+		cs.Input(doc[:min(len(doc), 4096)])
+		cs.Nontrivial(fmt.Sprintf("corpus/%d", k))
+		for _, cfg := range cfgs {
+			c09Call(cs, cfg.mk(w), cfg.name, b64(doc))
+		}
 	}
 	nm := c.N(2400, 120000) / div
 	for k := 0; k < nm; k++ {
